@@ -44,6 +44,10 @@ def check_ordering(ctx):
         r = repo.resolve_call(f, c)
         b = r[2] if r else {}
         tabs, attrs = b.get('table_list'), b.get('attr_list')
+        tabs = view.expand(tabs, st) if tabs is not None else None
+        attrs_x = view.expand(attrs, st) if attrs is not None else None
+        if isinstance(attrs_x, ast.List):
+            attrs = attrs_x
         ok = isinstance(tabs, ast.List) and [U(e) for e in tabs.elts] == [lt, rt]
         ctx.check('R-WIRE/ordering-tables', f, 'tables', ok,
                   'the token ordering is generated from %s, must be from [%s, %s]: tokens of a table that is left out get '
